@@ -3,11 +3,19 @@ tree whenever it answers True (through the proved witness checker spt_check)."""
 import itertools
 import random
 
-from .common import case, guarded, ordinal_instance, strict, rand_perm
+from .common import case, guarded, ordinal_instance, strict, rand_perm, snapshot, snap_diff
 
 ID = "C13"
 COVER_FILES = ['properties/subdomains/ordinal/singlepeaked/single_peaked_tree.py']
-RULE = ("alternative ids are non-negative integers; every range below exists with ids 1..m and with the 0-based ids "
+RULE = ("history cases (op c13.hist, 7 templates): scripts on live OrdinalInstance objects inside one worker call - the "
+        "same question twice; append_order / append_order_list / append_vote_map between two calls; the returned edge "
+        "list poisoned in place and the question asked again; another profile (same ids, other m, rejected early) asked "
+        "first, then the profile under test, then the first again; instances filled through the public API with "
+        "recompute_cardinality_param / flatten_strict / full_profile / vote_map / infer_type in between (their results "
+        "poisoned in place); instance.orders order decoupled from the key order of instance.multiplicity, "
+        "alternatives_name in shuffled order, numpy.int64 ids; every call is judged against the mirror for the "
+        "profile as it should be at that point, the returned tree through c13.check, and common.snapshot before / "
+        "after every call must agree. single-call cases: alternative ids are non-negative integers; every range below exists with ids 1..m and with the 0-based ids "
         "0..m-1, about half of the random id pools contain 0 and the planted trees are relabelled so that 0 is an "
         "inner vertex. exhaustive: m = 2; every non-empty set of distinct strict orders over 3 alternatives (both storage orders); "
         "every set of <= 3 (quick) / <= 4 (thorough) distinct strict orders over 4 alternatives, stored in increasing "
@@ -251,13 +259,288 @@ def generate(tier, seed):
         m = rng.randint(7, 30)
         n = rng.randint(2, 20)
         out.append(_planted(rng, m, n, rng.randint(1, 2), op="c13.witness", big=1))
+    # histories on live objects (purity, aliasing of the returned list, object lifetime, storage order, numpy ids,
+    # maintenance API in the middle)
+    nhist = 1400 if tier == "quick" else 12000
+    for i in range(nhist):
+        hc = _hist_case(rng, i)
+        if _hist_valid(hc["payload"]):
+            out.append(hc)
     # the oracle side is split into contiguous chunks: spread the expensive reference calls (m >= 7) evenly
     random.Random(seed + 7).shuffle(out)
     return out
 
 
+
+# ---------------------------------------------------------------------------------------------------------------
+# History cases (op "c13.hist"): a script run inside ONE worker call on live instance objects.
+# payload = [step, ...]; steps (nested ints only):
+#   [0, alts, [[order, mult], ...], flags]  new instance by direct field assignment; flags: 1 = reverse instance.orders
+#                                            in place, 2 = rotate the key order of instance.multiplicity,
+#                                            4 = ids are numpy.int64;   the new instance becomes the current one
+#   [1, flags]                               new empty OrdinalInstance() (filled through the public API)
+#   [2, order]                               current.append_order(order)
+#   [3, [order, ...]]                        current.append_order_list(orders as tuples of singleton tuples)
+#   [8, [[order, mult], ...]]                current.append_vote_map({...})
+#   [4, which]                               maintenance call, result poisoned in place: 0 recompute_cardinality_param,
+#                                            1 flatten_strict, 2 full_profile, 3 vote_map, 4 infer_type
+#   [5]                                      CALL is_single_peaked_on_tree(current) (snapshot before / after)
+#   [6]                                      poison the edge list returned by the last call in place
+#   [7, k]                                   make the k-th instance created by this script the current one
+# The judge simulates the script (what the profile of each instance should be at each CALL) and asks the model.
+# ---------------------------------------------------------------------------------------------------------------
+def _hist_sim(steps):
+    """[(alts, orders)] at each CALL step: the profile the current instance should hold at that point"""
+    insts, cur, calls = [], None, []
+
+    def add(st, order):
+        for a in order:
+            if a not in st[0]:
+                st[0].append(a)
+        if list(order) not in st[1]:
+            st[1].append(list(order))
+
+    for stp in steps:
+        k = stp[0]
+        if k == 0:
+            st = [list(stp[1]), []]
+            for o, _ in stp[2]:
+                add(st, o)
+            insts.append(st)
+            cur = st
+        elif k == 1:
+            insts.append([[], []])
+            cur = insts[-1]
+        elif k == 2:
+            add(cur, stp[1])
+        elif k == 3:
+            for o in stp[1]:
+                add(cur, o)
+        elif k == 8:
+            for o, _ in stp[1]:
+                add(cur, o)
+        elif k == 5:
+            calls.append((list(cur[0]), [list(o) for o in cur[1]]))
+        elif k == 7:
+            cur = insts[stp[1]]
+    return calls
+
+
+def _hist_impl(c):
+    import numpy as np
+    from preflibtools.instances import OrdinalInstance
+    from preflibtools.properties.subdomains.ordinal.singlepeaked.single_peaked_tree import is_single_peaked_on_tree
+    insts, flags_of, cur, last_tree = [], [], None, None
+    results, diffs = [], []
+
+    def conv(x, fl):
+        return np.int64(x) if fl & 4 else x
+
+    for si, stp in enumerate(c["payload"]):
+        k = stp[0]
+        if k == 0:
+            fl = stp[3]
+            inst = ordinal_instance([([[conv(a, fl)] for a in o], mu) for o, mu in stp[2]], data_type="soc",
+                                    alts=[conv(a, fl) for a in stp[1]])
+            if fl & 1:
+                inst.orders.reverse()                      # in place: `preferences` stays an alias
+            if fl & 2 and len(inst.multiplicity) > 1:
+                k0 = next(iter(inst.multiplicity))
+                inst.multiplicity[k0] = inst.multiplicity.pop(k0)
+            insts.append(inst)
+            flags_of.append(fl)
+            cur = len(insts) - 1
+        elif k == 1:
+            insts.append(OrdinalInstance())
+            flags_of.append(stp[1])
+            cur = len(insts) - 1
+        elif k == 2:
+            insts[cur].append_order(tuple(conv(a, flags_of[cur]) for a in stp[1]))
+        elif k == 3:
+            insts[cur].append_order_list([tuple((conv(a, flags_of[cur]),) for a in o) for o in stp[1]])
+        elif k == 8:
+            insts[cur].append_vote_map({tuple((conv(a, flags_of[cur]),) for a in o): mu for o, mu in stp[1]})
+        elif k == 4:
+            inst = insts[cur]
+            w = stp[1]
+            if w == 0:
+                inst.recompute_cardinality_param()
+            elif w == 1:
+                res = inst.flatten_strict()
+                res.reverse()
+                res.append(((-1,), 99))
+                del res[:1]
+            elif w == 2:
+                res = inst.full_profile()
+                res.append(((-1,),))
+                res.reverse()
+                res.clear()
+            elif w == 3:
+                res = inst.vote_map()
+                res[((-1,),)] = 5
+                for key in list(res)[:1]:
+                    res.pop(key)
+            else:
+                inst.infer_type()
+        elif k == 5:
+            inst = insts[cur]
+            before = snapshot(inst)
+            r = guarded(is_single_peaked_on_tree, inst)
+            d = snap_diff(before, snapshot(inst))
+            if d:
+                diffs.append([si, d])
+            if r[0] != 0:
+                results.append(["err", r])
+                last_tree = None
+                continue
+            res = r[1]
+            if not (isinstance(res, tuple) and len(res) == 2):
+                results.append(["err", "returned %r" % (res,)])
+                continue
+            verdict, tree = res
+            last_tree = tree
+            if isinstance(verdict, (bool, np.bool_)) and bool(verdict):
+                try:
+                    results.append([1, [[int(a), int(b)] for a, b in tree]])
+                except Exception:
+                    results.append(["err", "returned tree is not a list of pairs: %r" % (tree,)])
+            elif isinstance(verdict, (bool, np.bool_)):
+                results.append([0, []] if tree is None else ["err", "verdict False with a tree %r" % (tree,)])
+            else:
+                results.append(["err", "verdict is not a bool: %r" % (verdict,)])
+        elif k == 6:
+            if isinstance(last_tree, list):
+                last_tree.append((-7, -7))
+                last_tree.reverse()
+                if len(last_tree) > 1:
+                    last_tree[1] = last_tree[0]
+                del last_tree[2:]
+        elif k == 7:
+            cur = stp[1]
+    return {"hist": results, "diff": diffs}
+
+
+def _hist_requests(c, r):
+    calls = _hist_sim(c["payload"])
+    reqs = []
+    res = r.get("hist", []) if isinstance(r, dict) else []
+    for i, (alts, orders) in enumerate(calls):
+        reqs.append(("c13.algo", [alts, orders]))
+        edges = res[i][1] if i < len(res) and res[i][0] == 1 else []
+        reqs.append(("c13.check", [alts, orders, edges]))
+    return reqs
+
+
+def _hist_judge(c, r, mres):
+    if not (isinstance(r, dict) and "hist" in r):
+        return {"kind": "exception", "reason": "history script failed: %r" % (r,)}
+    calls = _hist_sim(c["payload"])
+    res = r["hist"]
+    if len(res) != len(calls):
+        return {"kind": "broken-correspondence", "reason": "history: %d calls, %d results" % (len(calls), len(res))}
+    for i, (alts, orders) in enumerate(calls):
+        a, chk = mres[2 * i], mres[2 * i + 1]
+        if a[0] != 0:
+            return {"kind": "broken-correspondence", "reason": "mirror ran out of fuel on call %d" % i}
+        av = a[1][0]
+        if res[i][0] == "err":
+            return {"kind": "exception", "reason": "call %d of the history (profile %r over %r): %r"
+                                                   % (i, orders, alts, res[i][1])}
+        if res[i][0] != av:
+            return {"kind": "mismatch", "theorem": "trick_decides",
+                    "reason": "call %d of the history: verdict %s, but the profile at that point (%r over %r) gives %s"
+                              % (i, bool(res[i][0]), orders, alts, bool(av))}
+        if res[i][0] == 1 and chk != 1:
+            return {"kind": "mismatch", "theorem": "spt_check_correct",
+                    "reason": "call %d of the history: verdict True but the edge list %r is rejected by spt_check for "
+                              "the profile at that point (%r over %r)" % (i, res[i][1], orders, alts)}
+    if r["diff"]:
+        si, d = r["diff"][0]
+        return {"kind": "mismatch", "theorem": "purity (the next call on the same object must see the same profile)",
+                "reason": "is_single_peaked_on_tree modified the instance it was asked about (step %d): %s" % (si, d)}
+    return None
+
+
+def _hist_profile(rng, alts, kind):
+    """(orders, adj or None): distinct strict complete orders over alts"""
+    m = len(alts)
+    if kind == "random":
+        orders = []
+        for _ in range(rng.randint(1, 4)):
+            v = rand_perm(rng, alts)
+            if v not in orders:
+                orders.append(v)
+        return orders, None
+    edges, _ = _rand_tree(rng, alts)
+    edges = _zero_inside(rng, edges)
+    adj = {a: [] for a in alts}
+    for a, b in edges:
+        adj[a].append(b)
+        adj[b].append(a)
+    orders = []
+    for _ in range(rng.randint(1, 6)):
+        v = _grow_vote(rng, alts, adj)
+        if v not in orders:
+            orders.append(v)
+    if kind == "noisy":
+        v = list(rng.choice(orders))
+        i = rng.randrange(m - 1)
+        v[i], v[i + 1] = v[i + 1], v[i]
+        if rng.random() < 0.5:
+            v = rand_perm(rng, alts)
+        if v not in orders:
+            orders.append(v)
+    rng.shuffle(orders)
+    return orders, adj
+
+
+def _hist_case(rng, i):
+    m = rng.choice([3, 4, 4, 5, 5, 6, 7, 9, 12])
+    alts = _ids(rng, m)
+    kind = rng.choice(["planted", "planted", "noisy", "random"])
+    orders, adj = _hist_profile(rng, alts, kind)
+    names = list(alts)
+    rng.shuffle(names)                                  # alternatives_name not ascending
+    fl = rng.choice([0, 1, 2, 3, 3, 4, 5, 6, 7])
+    prof = [[o, rng.choice([1, 1, 2, 5])] for o in orders]
+    build = [0, names, prof, fl]
+
+    def extra_vote():
+        if adj is not None and rng.random() < 0.6:
+            return _grow_vote(rng, alts, adj)
+        return rand_perm(rng, alts)
+
+    t = i % 7
+    if t == 0:      # the same question twice on one object
+        steps = [build, [5], [5]]
+    elif t == 1:    # an append in between (the answer may change)
+        steps = [build, [5], [2, extra_vote()], [5], [3, [extra_vote(), extra_vote()]], [5]]
+    elif t == 2:    # poison the returned edge list and re-ask
+        steps = [build, [5], [6], [5], [6], [5]]
+    elif t == 3:    # another profile first (same ids / other m / rejected early), then the profile under test, then back
+        m2 = rng.choice([m, m, max(3, m - 1), m + 1])
+        pool = list(alts) + [x for x in range(0, 40) if x not in alts]
+        alts2 = pool[:m2] if rng.random() < 0.7 else rng.sample(pool, m2)
+        o2, _ = _hist_profile(rng, alts2, rng.choice(["random", "random", "noisy", "planted"]))
+        n2 = list(alts2)
+        rng.shuffle(n2)
+        steps = [[0, n2, [[o, 1] for o in o2], rng.choice([0, 3])], [5], build, [5], [7, 0], [5], [7, 1], [5]]
+    elif t == 4:    # public API, maintenance calls in the middle of the history
+        k = rng.randint(1, len(orders))
+        p1, p2 = orders[:k], orders[k:] + [extra_vote()]
+        steps = [[1, fl & 4], [3, p1], [4, 0], [3, p2], [4, rng.choice([1, 2, 3])], [5],
+                 [4, rng.choice([0, 1, 2, 3, 4])], [5]]
+    elif t == 5:    # append_order / append_vote_map, accessors poisoned
+        steps = [[1, fl & 4]] + [[2, o] for o in orders] + [[4, 1], [5], [8, [[extra_vote(), 2]]], [4, 0], [4, 3], [5]]
+    else:           # maintenance on a directly built instance with decoupled storage orders
+        steps = [build, [4, rng.choice([0, 1, 2, 3, 4])], [5], [4, 0], [2, extra_vote()], [4, 1], [5], [6], [5]]
+    return case("c13.hist", steps, hist=t)
+
+
 # ---------------------------------------------------------------------------------------------------------------
 def impl(c):
+    if c["op"] == "c13.hist":
+        return _hist_impl(c)
     from preflibtools.properties.subdomains.ordinal.singlepeaked.single_peaked_tree import is_single_peaked_on_tree
     alts, prof = c["payload"]
     inst = ordinal_instance([(strict(o), mu) for o, mu in prof], data_type="soc", alts=alts)
@@ -303,6 +586,8 @@ def _plan(c):
 
 
 def oracle_requests(c, r):
+    if c["op"] == "c13.hist":
+        return _hist_requests(c, r)
     alts = c["payload"][0]
     orders = _orders(c)
     edges = []
@@ -332,6 +617,8 @@ def _m(c, mres):
 
 
 def judge(c, r, mres):
+    if c["op"] == "c13.hist":
+        return _hist_judge(c, r, mres)
     if not (isinstance(r, list) and r and r[0] == 0):
         return {"kind": "exception", "reason": "is_single_peaked_on_tree raised: %r" % (r,)}
     verdict, edges = r[1]
@@ -372,11 +659,39 @@ def judge(c, r, mres):
     return None
 
 
+def _hist_valid(steps):
+    try:
+        calls = _hist_sim(steps)
+    except Exception:
+        return False
+    if not calls:
+        return False
+    for alts, orders in calls:
+        if len(alts) < 2 or not orders or any(sorted(o) != sorted(alts) for o in orders):
+            return False
+    return True
+
+
 def nontrivial(c, r, m):
+    if c["op"] == "c13.hist":
+        calls = _hist_sim(c["payload"])
+        return len(calls) >= 2 and any(len(a) >= 4 and len(o) >= 2 for a, o in calls)
     return len(c["payload"][0]) >= 4 and len(c["payload"][1]) >= 2
 
 
 def stats(c, r, m):
+    if c["op"] == "c13.hist":
+        names = ["twice", "append between", "poisoned tree", "other profile first", "API + maintenance",
+                 "append_order/vote_map + accessors", "direct + maintenance"]
+        out = ["history: %s" % names[c["tags"].get("hist", 0) % 7]]
+        try:
+            vs = "".join("T" if x[0] == 1 else "F" for x in r["hist"])
+            out.append("history verdicts %s" % ("constant" if len(set(vs)) == 1 else "change along the history"))
+            if any(stp[0] in (0, 1) and (stp[-1] & 4) for stp in c["payload"]):
+                out.append("history with numpy.int64 ids")
+        except Exception:
+            pass
+        return out
     mm = len(c["payload"][0])
     n = len(c["payload"][1])
     d = _m(c, m)
@@ -402,12 +717,34 @@ def stats(c, r, m):
 
 
 def describe(c):
+    if c["op"] == "c13.hist":
+        return {"script (see the comment above _hist_sim in harness/props/c13.py)": c["payload"],
+                "profile at each call": _hist_sim(c["payload"])}
     return {"alternatives_name keys": c["payload"][0],
             "orders (storage order) with multiplicities": c["payload"][1],
             "call": "is_single_peaked_on_tree(instance)", "compared_with": c["op"]}
 
 
 def shrink(c):
+    if c["op"] == "c13.hist":
+        steps = c["payload"]
+        cands = []
+        for i, stp in enumerate(steps):
+            if stp[0] not in (0, 1, 7):
+                cands.append(steps[:i] + steps[i + 1:])
+        for i, stp in enumerate(steps):
+            if stp[0] == 0:
+                for j in range(len(stp[2])):
+                    cands.append(steps[:i] + [[0, stp[1], stp[2][:j] + stp[2][j + 1:], stp[3]]] + steps[i + 1:])
+                if stp[3]:
+                    cands.append(steps[:i] + [[0, stp[1], stp[2], 0]] + steps[i + 1:])
+            if stp[0] == 3 and len(stp[1]) > 1:
+                for j in range(len(stp[1])):
+                    cands.append(steps[:i] + [[3, stp[1][:j] + stp[1][j + 1:]]] + steps[i + 1:])
+        for cand in cands:
+            if _hist_valid(cand):
+                yield dict(c, payload=cand)
+        return
     alts, prof = c["payload"]
     for i in range(len(prof)):
         if len(prof) > 1:
